@@ -25,6 +25,18 @@ pub fn run_prop(prop: &str, seed: u64, run: u64) -> RunReport {
     }
 }
 
+pub fn prop_static(prop: &str) -> &'static str {
+    match prop {
+        "C08" => "C08",
+        "C09" => "C09",
+        "C10" => "C10",
+        "C11" => "C11",
+        "C15" => "C15",
+        "C16" => "C16",
+        _ => "C17",
+    }
+}
+
 pub fn level_for(prop: &str) -> &'static str {
     match prop {
         "C10" => "fault_enumeration",
@@ -395,7 +407,7 @@ pub fn run_batch_exe(
 pub fn process_history_pair(prop: &str, seed: u64, from: u64, run: u64) -> Option<(u64, u64)> {
     let seq = run_batch(prop, seed, from, run + 1, 1, true).ok()?;
     let alone = run_batch(prop, seed, run, run + 1, 1, true).ok()?;
-    if prop == "C16" || prop == "C15" {
+    if prop != "C17" {
         return Some((
             seq.violation_runs.contains(&run) as u64,
             alone.violation_runs.contains(&run) as u64,
@@ -569,7 +581,7 @@ pub fn replay_value(prop: &str, lane: &str, scenario: &Value, verbose: bool) -> 
             let run = scenario["run"].as_u64().unwrap_or(0);
             match process_history_pair(prop, seed, from, run) {
                 Some((a, b)) if a != b => Ok(Some(crate::exec::Violation {
-                    props: vec![match prop { "C16" => "C16", "C15" => "C15", _ => "C17" }],
+                    props: vec![prop_static(prop)],
                     clause: "result-depends-on-process-history".into(),
                     op: "run-sequence".into(),
                     key: String::new(),
@@ -867,7 +879,7 @@ pub fn cmd_check(prop: &str, tier: &str, seed: u64) -> i32 {
                                 println!("VIOLATION property={} replay={}", prop, path2);
                                 replay_path = path2;
                                 exit = 1;
-                            } else if prop == "C17" || prop == "C16" || prop == "C15" {
+                            } else if pick["lane"].as_str() != Some("M") {
                                 // the outcome depended on what the worker's thread had processed
                                 // (C17) / on failures of threads of *earlier runs* of the same
                                 // process (C16): replay the run sequence instead
@@ -876,7 +888,7 @@ pub fn cmd_check(prop: &str, tier: &str, seed: u64) -> i32 {
                                 match process_history_window(prop, seed, r, wf) {
                                     Some((from, h_seq, h_alone)) => {
                                         let v = crate::exec::Violation {
-                                            props: vec![match prop { "C16" => "C16", "C15" => "C15", _ => "C17" }],
+                                            props: vec![prop_static(prop)],
                                             clause: "result-depends-on-process-history".into(),
                                             op: "run-sequence".into(),
                                             key: String::new(),
